@@ -109,6 +109,8 @@ def no_panic_oracle(case, trace):
                 yield "an iterator that was dropped after %s items had made %s driver calls (more than one per item asked for plus the constructor's)" % (m_.group(1), m_.group(2))
         if t == "SKIPRUN" and not r.startswith("same"):
             yield "taking every second item with Iterator::nth(1) does not give items 1, 3, 5, ... of the plain run with the same driver calls: %s" % r[:300]
+        if t == "ADAPT" and not r.startswith("same"):
+            yield "the run through Iterator's provided methods (by_ref().take(k) + size_hint, or fold) differs from the plain run with the same driver: %s" % r[:300]
         if t == "APICHK" and not r.startswith("ok"):
             # the harness also calls the small public functions on values and signals (check / value / is_checked /
             # failing_outputs / is_input ... / Display / Binary) and compares them with each other and with the data
